@@ -162,6 +162,26 @@ class RealStore:
                     if getattr(cb, "__name__", "") == "_trigger_reserve_get" and getattr(cb, "__self__", None) is s:
                         ts.add(max(0, int(round((t - env.now) / TICK))))
             timers = sorted(ts, reverse=False)
+        if self.kind == "slotted":
+            # slotted belt store: an item is offered cap*slot after it entered; the end of its entry phase (one slot
+            # after the put) is an event whose callback is _trigger_reserve_put
+            travel = self.cfg["cap"] * self.cfg.get("slot", self.cfg.get("trig", 1)) * TICK
+            for x in s.items:
+                it = x[0] if isinstance(x, tuple) else x
+                item_rem[id(it)] = max(0, int(round((it.conveyor_entry_time + travel - env.now) / TICK)))
+            ts = []
+            for p, n, o, t0 in env.live_procs("move_to_ready_items", s):
+                fr = p._generator.gi_frame
+                if fr is None:
+                    continue
+                ev1 = fr.f_locals.get("event")
+                if ev1 is not None and not ev1.triggered:
+                    ts.append(rem_of_proc(p))
+            for (t, _p, _e, ev) in env._queue:
+                for cb in (ev.callbacks or []):
+                    if getattr(cb, "__name__", "") == "_trigger_reserve_put" and getattr(cb, "__self__", None) is s:
+                        ts.append(max(0, int(round((t - env.now) / TICK))))
+            timers = sorted(ts)
         act = {"rem": self.cfg["fdelay"], "armed": False}
         if self.kind == "fleet":
             k = 0
